@@ -6,8 +6,8 @@ record("File", bases=["Resource"])
 record("Folder", bases=["Resource"])
 record("Project", fields={})
 record("_FileListCacher", fields={"project": "Project", "files": "Opt[Set[Resource]]"})
-contract("File.is_folder", source="rope.base.resources:File.is_folder", inline=True, params={"self": "File"}, returns="Bool")
-contract("Folder.is_folder", source="rope.base.resources:Folder.is_folder", inline=True, params={"self": "Folder"}, returns="Bool")
+contract("File.is_folder", source="rope.base.resources:File.is_folder", inline=True, params={"self": "File"}, returns="Bool", ensures=["not result"])
+contract("Folder.is_folder", source="rope.base.resources:Folder.is_folder", inline=True, params={"self": "Folder"}, returns="Bool", ensures=["result"])
 
 # ghost: `listed(x)` = x is a non-ignored file on disk *before* the notified change; the notified change may only have added `resource`
 specfun("listed", ["Resource"], "Bool")
@@ -20,22 +20,53 @@ contract("_FileListCacher._changed", source=P + "_FileListCacher._changed", para
              # possibly, that resource -- and if it lists anything it already contained the changed file
              "is_none(self.files) or (self.files == old(self.files) and (isinstance(resource, Folder) == False) and select(val(self.files), resource))"],
          note="a change to a file the cache does not know must drop the cache (the write created the file)")
-contract("_FileListCacher._invalid", source=P + "_FileListCacher._invalid", params={"self": "_FileListCacher", "resource": "Resource", "new_resource": "Opt[Resource]"},
+contract("_FileListCacher._invalid", source=P + "_FileListCacher._invalid", params={"self": "_FileListCacher", "resource": "Resource", "new_resource": "Opt[Resource]"}, defaults={"new_resource": "None"},
          modifies=["self.files"], raises={}, ensures=["is_none(self.files)"], note="create / move / remove / validate always drop the cached list")
 
 ghost("forgotten", "Bool")
-record("PyModule", fields={})
+ghost("observed", "Set[Resource]")      # the resources the filtered observer watches: a change to one of them reaches _invalidate_resource
+record("PyCore", fields={})
+record("PyModule", fields={"has_errors": "Bool"})
 record("Observer", fields={})
-record("_ModuleCache", fields={"module_map": "Map[Resource,PyModule]", "observer": "Observer"})
+record("_ModuleCache", fields={"module_map": "Map[Resource,PyModule]", "observer": "Observer", "pycore": "PyCore"})
 contract("_ModuleCache.forget_all_data", abstract=True, params={"self": "_ModuleCache"}, modifies=["forgotten"], ensures=["forgotten"],
          note="every cached module forgets its concluded data (loop over module_map.values(); pyobjects side not under contract)")
-contract("Observer.remove_resource", abstract=True, params={"self": "Observer", "resource": "Resource"})
+contract("Observer.remove_resource", abstract=True, params={"self": "Observer", "resource": "Resource"}, modifies=["observed"],
+         ensures=["not select(observed, resource)", "forall(lambda r: implies(r != resource, select(observed, r) == select(old(observed), r)), 'Resource')"],
+         note="FilteredResourceObserver.remove_resource: stop watching that resource")
+contract("Observer.add_resource", abstract=True, params={"self": "Observer", "resource": "Resource"}, modifies=["observed"],
+         ensures=["select(observed, resource)", "forall(lambda r: implies(r != resource, select(observed, r) == select(old(observed), r)), 'Resource')"],
+         note="FilteredResourceObserver.add_resource: start watching that resource")
+# every cached module is watched: otherwise a change to its file would never reach the cache
+specdef("watched", {"c": "_ModuleCache", "obs": "Set[Resource]"}, "Bool", "forall(lambda r: implies(not is_none(select(c.module_map, r)), select(obs, r)), 'Resource')")
 contract("_ModuleCache._invalidate_resource", source=C + "_ModuleCache._invalidate_resource", params={"self": "_ModuleCache", "resource": "Resource"},
-         modifies=["self.module_map", "forgotten"], raises={},
+         requires=["watched(self, observed)"],
+         modifies=["self.module_map", "forgotten", "observed"], raises={},
          ensures=["is_none(select(self.module_map, resource))",
                   "forall(lambda r: implies(r != resource, select(self.module_map, r) == select(old(self.module_map), r)), 'Resource')",
-                  "implies(not is_none(select(old(self.module_map), resource)), forgotten)"],
-         note="a changed resource leaves the module cache, nothing else does, and concluded data of every module is dropped whenever a cached module or package changes")
+                  "implies(not is_none(select(old(self.module_map), resource)), forgotten and not select(observed, resource))",
+                  "implies(is_none(select(old(self.module_map), resource)), observed == old(observed) and forgotten == old(forgotten))",
+                  "watched(self, observed)"],
+         note="a changed resource leaves the module cache and the watch list, nothing else does, and concluded data of every module is dropped whenever a "
+              "cached module or package changes")
+contract("pyobjectsdef.PyPackage", external=True, params={"pycore": "PyCore", "resource": "Resource", "force_errors": "Bool"}, returns="PyModule",
+         note="builds the package object; no effect on the cache")
+contract("pyobjectsdef.PyModule", external=True, params={"pycore": "PyCore", "resource": "Resource", "force_errors": "Bool"}, returns="PyModule",
+         note="parses the module; no effect on the cache")
+contract("_ModuleCache.get_pymodule", source=C + "_ModuleCache.get_pymodule", params={"self": "_ModuleCache", "resource": "Resource", "force_errors": "Bool"},
+         defaults={"force_errors": "False"}, returns="PyModule",
+         requires=["watched(self, observed)"], modifies=["self.module_map", "observed"], raises={},
+         ensures=[
+             # a hit answers from the cache and changes nothing
+             "implies(not is_none(select(old(self.module_map), resource)), result == val(select(old(self.module_map), resource)) and self.module_map == old(self.module_map) and observed == old(observed))",
+             # a miss caches what it returns and starts watching the resource -- unless a module came out with syntax errors, which is handed out uncached
+             "implies(is_none(select(old(self.module_map), resource)) and not (isinstance(resource, File) and result.has_errors), "
+             "        select(self.module_map, resource) == Some(result) and select(observed, resource))",
+             "implies(is_none(select(old(self.module_map), resource)) and isinstance(resource, File) and result.has_errors, "
+             "        self.module_map == old(self.module_map) and observed == old(observed))",
+             "forall(lambda r: implies(r != resource, select(self.module_map, r) == select(old(self.module_map), r)), 'Resource')",
+             "watched(self, observed)"],
+         note="whatever enters the cache is watched from then on")
 
 from bounded import c13_warm as _b13
 bounded_check(name="c13-warm-vs-fresh", fn=_b13.run_case, domain=_b13.domain, exhaustive=False,
